@@ -359,12 +359,18 @@ def _body_calls(fn, params, mod, modl, keyof):
     return calls, returns
 
 
+PY_HELPERS: list = []
+AST_UNREAD: list = []
+
+
 def read_table(ctx=None):
     """-> (rows, problems).  row = dict(modl,name,params,pnames,ret,binding,doc)"""
     std = _load_std()
     from guppylang_internals.engine import DEF_STORE
 
     problems = []
+    del PY_HELPERS[:]
+    del AST_UNREAD[:]
     found = []  # (modl, name, FunctionDef, definition object)
     for modl in list_modules():
         try:
@@ -375,7 +381,14 @@ def read_table(ctx=None):
         tree = ast.parse(open(_src_of(modl)).read())
         for node in tree.body:
             if isinstance(node, ast.FunctionDef):
-                found.append((modl, node.name, node, getattr(mod, node.name, None)))
+                obj = getattr(mod, node.name, None)
+                if (node.name.startswith("_") and not node.decorator_list and getattr(obj, "id", None) is None
+                        and inspect.isfunction(obj)):
+                    # an undecorated private plain-Python helper (e.g. a decorator factory): not callable from
+                    # Guppy code, not part of the library's surface; counted, not modelled
+                    PY_HELPERS.append(f"{modl}.{node.name}")
+                    continue
+                found.append((modl, node.name, node, obj))
             elif isinstance(node, ast.ClassDef) and node.name == "qubit" and modl == "quantum":
                 impls = DEF_STORE.impls.get(mod.qubit.id, {})
                 for sub in node.body:
@@ -417,7 +430,13 @@ def read_table(ctx=None):
         else:
             bo = _binding_from_object(DEF_STORE.raw_defs[obj.id])
         if b != bo:
-            problems.append(f"translator: source AST says {b} but the definition object says {bo} for {modl}.{name}")
+            if b[0].startswith("unsupported:decorator") and bo[0] in ("direct", "rotation", "measure", "measureReset", "guppy"):
+                # the decorator is spelled in a way the AST reader does not know (e.g. through a helper);
+                # the registered definition object is what the compiler uses, and every probe below is
+                # lowered and executed against the documented gate anyway
+                AST_UNREAD.append(f"{modl}.{name}")
+            else:
+                problems.append(f"translator: source AST says {b} but the definition object says {bo} for {modl}.{name}")
             b = bo  # the object is what the compiler uses
         if b[0] == "guppy":
             try:
@@ -517,6 +536,8 @@ def translate(ctx):
         with open(path, "w") as f:
             f.write(txt)
     ctx.extra["table_rows"] = len(rows)
+    ctx.extra["python_helpers_skipped"] = list(PY_HELPERS)
+    ctx.extra["decorators_read_from_object_only"] = list(AST_UNREAD)
     ctx.extra["table_bindings"] = {k: sum(1 for r in rows if r["binding"][0] == k) for k in
                                    ("direct", "rotation", "measure", "measureReset", "body", "opaque")}
     ctx._c20_rows = rows
